@@ -25,6 +25,19 @@ use tensor_chain::gossip::{
 use tensor_chain::membership::NodeHealth;
 use tensor_chain::network::MemoryTransport;
 
+/// at most 4 recorded violations per class (the report keeps 50 in total)
+trait Capped {
+    fn violation_capped(&mut self, class: &str, what: &str, input: Value);
+}
+impl Capped for Report {
+    fn violation_capped(&mut self, class: &str, what: &str, input: Value) {
+        let n = self.violations.iter().filter(|v| v["class"] == class).count();
+        if n < 4 {
+            self.violation(class, what, input);
+        }
+    }
+}
+
 const K: usize = 6; // members printed in a view (driver: nMembers)
 const HS: [NodeHealth; 4] = [
     NodeHealth::Healthy,
@@ -280,7 +293,7 @@ impl<'a> Exh<'a> {
                             .iter()
                             .map(|&(a, b)| batch_txt(&perm[a..b].iter().map(|&i| self.uni[i]).collect::<Vec<_>>()))
                             .collect();
-                        rep.violation(
+                        rep.violation_capped(
                             class,
                             "two real LWWMembershipState replicas that merged the same set of updates hold different registers",
                             json!({
@@ -414,19 +427,19 @@ fn apply_real(reps: &mut [LWWMembershipState], op: &Op, names: &[String]) -> Str
 /// monotonicity oracles on the implementation's own before/after views
 fn mono_oracles(rep: &mut Report, site: &str, opname: &str, before: (&CView, u64), after: (&CView, u64), hist: &dyn Fn() -> Value) {
     if after.1 < before.1 {
-        rep.violation(&format!("{site}/{opname}_clock_decreased"), "lamport clock moved backwards", hist());
+        rep.violation_capped(&format!("{site}/{opname}_clock_decreased"), "lamport clock moved backwards", hist());
     }
     for m in 0..K {
         match (before.0[m], after.0[m]) {
             (Some((_, _, i0)), Some((_, _, i1))) if i1 < i0 => {
-                rep.violation(
+                rep.violation_capped(
                     &format!("{site}/{opname}_incarnation_decreased"),
                     &format!("recorded incarnation of member {m} went from {i0} to {i1}"),
                     hist(),
                 );
             }
             (Some(_), None) => {
-                rep.violation(&format!("{site}/{opname}_member_forgotten"), &format!("member {m} disappeared"), hist());
+                rep.violation_capped(&format!("{site}/{opname}_member_forgotten"), &format!("member {m} disappeared"), hist());
             }
             _ => {}
         }
@@ -513,6 +526,13 @@ fn main() {
         }
     }
 
+    {
+        let t0 = std::time::Instant::now();
+        let maxlen = if args.thorough { 4 } else { 3 };
+        exhaustive_local(&mut rep, &mut m, &names, maxlen);
+        rep.note(&format!("exh.local (32-op alphabet on one member, every sequence up to length {maxlen}): {:.1}s", t0.elapsed().as_secs_f64()));
+    }
+
     // ---------------------------------------------------------------- random histories
     let scale: u64 = if args.thorough { 12 } else { 1 };
     {
@@ -525,6 +545,7 @@ fn main() {
             let mut reps: Vec<LWWMembershipState> = (0..nrep).map(|_| LWWMembershipState::new()).collect();
             let nops = 10 + r.below(50) as usize;
             let mut hist: Vec<String> = Vec::new();
+            let mut seen: Vec<Vec<Upd>> = vec![Vec::new(); nrep];
             let mut conflict = false;
             let mut ok = true;
             for _ in 0..nops {
@@ -555,6 +576,7 @@ fn main() {
                 let before = (cview(&reps[rr], &names), reps[rr].lamport_time());
                 let imp = apply_real(&mut reps, &op, &names);
                 let after = (cview(&reps[rr], &names), reps[rr].lamport_time());
+                seen[rr].extend(emitted_real(&op, &imp, &after.0));
                 // branch accounting from the implementation's own outputs
                 match &op {
                     Op::Merge(_, b) => {
@@ -595,7 +617,15 @@ fn main() {
                     break;
                 }
             }
-            let _ = ok;
+            if ok {
+                for rr in 0..nrep {
+                    let mut sn = seen[rr].clone();
+                    r.shuffle(&mut sn);
+                    let h = hist.clone();
+                    seen_oracle(&mut rep, &sn, &cview(&reps[rr], &names), &names, &|| json!(h));
+                }
+                rep.hit("random.join_of_seen_checked");
+            }
             let hkey = hist.join("/");
             rep.case("lww.random", if conflict { Some(&hkey) } else { None });
             if case < 2 {
@@ -669,7 +699,7 @@ fn main() {
                         if let Some((h, _, inc)) = v[mm] {
                             if inc > announced[mm] {
                                 let class = if h == 2 { "tensor_chain.gossip/failed_above_announced_incarnation" } else { "tensor_chain.gossip/recorded_above_announced_incarnation" };
-                                rep.violation(class, &format!("replica {ri} records member {mm} at incarnation {inc} > announced {}", announced[mm]), json!({"history": hist}));
+                                rep.violation_capped(class, &format!("replica {ri} records member {mm} at incarnation {inc} > announced {}", announced[mm]), json!({"history": hist}));
                             }
                             if h == 2 {
                                 rep.hit("system.failed_register_checked");
@@ -703,7 +733,7 @@ fn main() {
                     let vi = cview(&reps[i], &names);
                     if let Some((mm, tie)) = diff_kind(&v0, &vi) {
                         let class = if tie { "tensor_chain.gossip.merge/order_dependent_tie" } else { "tensor_chain.gossip.merge/order_dependent" };
-                        rep.violation(class, &format!("after a full exchange replicas 0 and {i} differ on member {mm}"), json!({"history": hist, "view_0": regs_txt(&v0), "view_i": regs_txt(&vi)}));
+                        rep.violation_capped(class, &format!("after a full exchange replicas 0 and {i} differ on member {mm}"), json!({"history": hist, "view_0": regs_txt(&v0), "view_i": regs_txt(&vi)}));
                     }
                 }
                 rep.hit("system.anti_entropy_checked");
@@ -748,6 +778,112 @@ fn main() {
     rep.note("u64 lamport/incarnation counters modelled as Nat (no overflow within 2^64 ticks)");
     rep.note("manager stream: suspicion timers (Instant), flap tracking, signing, ping-req/ack and transport sends are not modelled; only the CRDT effects of Sync/Suspect/Alive/add_peer are compared");
     rep.write(&args.out);
+}
+
+/// what the op fed into replica `r` (the batch, or the register a successful local event wrote)
+fn emitted_real(op: &Op, imp_answer: &str, after: &CView) -> Vec<Upd> {
+    match op {
+        Op::Merge(_, b) => b.clone(),
+        Op::UpdateLocal(_, m, ..) => after[*m].map(|(h, ts, inc)| vec![Upd { m: *m, h, ts, inc }]).unwrap_or_default(),
+        Op::Suspect(_, m, _) | Op::Fail(_, m) | Op::Refute(_, m, _) | Op::MarkHealthy(_, m) => {
+            if imp_answer.starts_with("true") {
+                after[*m].map(|(h, ts, inc)| vec![Upd { m: *m, h, ts, inc }]).unwrap_or_default()
+            } else {
+                vec![]
+            }
+        }
+    }
+}
+
+/// `view_is_join` evaluated on the implementation: a fresh real replica that merges everything
+/// `seen` in one batch must hold exactly the registers of the replica that lived the history
+fn seen_oracle(rep: &mut Report, seen: &[Upd], view: &CView, names: &[String], hist: &dyn Fn() -> Value) {
+    let mut fresh = LWWMembershipState::new();
+    let st: Vec<GossipNodeState> = seen.iter().map(|u| u.real(names)).collect();
+    fresh.merge(&st);
+    let fv = cview(&fresh, names);
+    if let Some((m, tie)) = diff_kind(&fv, view) {
+        let class = if tie { "tensor_chain.gossip/view_not_join_of_seen_tie" } else { "tensor_chain.gossip/view_not_join_of_seen" };
+        rep.violation_capped(class, &format!("replica's register for member {m} is not the greatest of the updates it merged or generated"),
+            json!({"history": hist(), "seen": batch_txt(seen), "view": regs_txt(view), "join_of_seen": regs_txt(&fv)}));
+    }
+}
+
+/// every sequence of <= `maxlen` operations from a small alphabet on one real replica, op by op
+/// against the model, with the monotonicity and join-of-seen oracles
+fn exhaustive_local(rep: &mut Report, m: &mut Model, names: &[String], maxlen: usize) {
+    let mut alpha: Vec<Op> = vec![];
+    for h in 0..4 {
+        for inc in [0u64, 1] {
+            for ts in [0u64, 1, 3] {
+                alpha.push(Op::Merge(0, vec![Upd { m: 0, h, ts, inc }]));
+            }
+        }
+    }
+    alpha.push(Op::Suspect(0, 0, 0));
+    alpha.push(Op::Suspect(0, 0, 1));
+    alpha.push(Op::Fail(0, 0));
+    alpha.push(Op::Refute(0, 0, 1));
+    alpha.push(Op::Refute(0, 0, 2));
+    alpha.push(Op::MarkHealthy(0, 0));
+    alpha.push(Op::UpdateLocal(0, 0, 0, 0));
+    alpha.push(Op::UpdateLocal(0, 0, 1, 1));
+    let a = alpha.len();
+    let stream = format!("exh.local.len1-{maxlen}");
+    let mut lines_sent = 0u64;
+    for len in 1..=maxlen {
+        let mut idx = vec![0usize; len];
+        'seqs: loop {
+            // run
+            let mut reps = vec![LWWMembershipState::new()];
+            let mut hist: Vec<String> = vec![];
+            let mut seen: Vec<Upd> = vec![];
+            let mut admissible = true;
+            m.ask("reset");
+            lines_sent += 1;
+            for &i in &idx {
+                let op = &alpha[i];
+                if let Op::UpdateLocal(_, mm, _, inc) = op {
+                    if current_inc(&reps[0], &names[*mm]).is_some_and(|c| c > *inc) {
+                        admissible = false; // outside OpOk: observed separately
+                        break;
+                    }
+                }
+                let line = op.line();
+                hist.push(line.clone());
+                let before = (cview(&reps[0], names), reps[0].lamport_time());
+                let imp = apply_real(&mut reps, op, names);
+                let after = (cview(&reps[0], names), reps[0].lamport_time());
+                let h = hist.clone();
+                mono_oracles(rep, "tensor_chain.gossip", op.name(), (&before.0, before.1), (&after.0, after.1), &|| json!({"history": h}));
+                seen.extend(emitted_real(op, &imp, &after.0));
+                let ans = m.ask(&line);
+                lines_sent += 1;
+                rep.compare(&stream, || json!({"history": hist}), &imp, &ans);
+            }
+            if admissible {
+                let v = cview(&reps[0], names);
+                let h = hist.clone();
+                seen_oracle(rep, &seen, &v, names, &|| json!(h));
+                let key = hist.join("/");
+                rep.case(&stream, if len >= 2 { Some(&key) } else { None });
+            }
+            // next index vector
+            let mut k = len;
+            loop {
+                if k == 0 {
+                    break 'seqs;
+                }
+                k -= 1;
+                idx[k] += 1;
+                if idx[k] < a {
+                    break;
+                }
+                idx[k] = 0;
+            }
+        }
+    }
+    rep.hit_n(&format!("{stream}.model_lines"), lines_sent);
 }
 
 fn parse_upd(w: &str) -> Option<Upd> {
@@ -825,7 +961,7 @@ fn corpus_stream(rep: &mut Report, m: &mut Model, names: &[String]) {
                         let vv = cview(&rr, names);
                         if let Some((mm, tie)) = diff_kind(&vv, &v) {
                             let class = if tie { "tensor_chain.gossip.merge/order_dependent_tie" } else { "tensor_chain.gossip.merge/order_dependent" };
-                            rep.violation(class, "corpus scenario: a re-ordered / re-batched delivery of the same updates ends in different registers",
+                            rep.violation_capped(class, "corpus scenario: a re-ordered / re-batched delivery of the same updates ends in different registers",
                                 json!({"file": f.display().to_string(), "replica_A": line,
                                        "replica_B_batches": batches_of(n, mask).iter().map(|&(a, b)| batch_txt(&keyed[a..b].iter().map(|&i| flat[i]).collect::<Vec<_>>())).collect::<Vec<_>>(),
                                        "member": mm, "view_A": regs_txt(&v), "view_B": regs_txt(&vv)}));
@@ -950,7 +1086,7 @@ fn manager_streams(_args: &Args, root: &Rng, rep: &mut Report, m: &mut Model, na
         b[sender] = None;
         if let Some((mm, tie)) = diff_kind(&a, &b) {
             let class = if tie { "tensor_chain.gossip.merge/order_dependent_tie" } else { "tensor_chain.gossip.handle_sync/order_dependent" };
-            rep.violation(class, &format!("two GossipMembershipManagers fed the same Sync set differ on member {mm}"),
+            rep.violation_capped(class, &format!("two GossipMembershipManagers fed the same Sync set differ on member {mm}"),
                 json!({"manager_A": lines_all[0], "manager_B": lines_all[1], "view_A": regs_txt(&a), "view_B": regs_txt(&b)}));
         }
         rep.case("mgr.conv", Some(&lines_all[0].join("/")));
